@@ -117,7 +117,31 @@ func C09Scenarios(tier string) []*h.Scenario {
 			hh.W.AddNode(a, sim.NodeOpt{Age: time.Duration(21+i) * Q, TaintAge: dp(time.Duration(3+i) * Q)})
 		}
 	}
-	return []*h.Scenario{s, &s2, &s3, &s4}
+	// the group's taint_effect was changed (NoExecute) while nodes still carry escalator taints written
+	// with the old effect, one of them on a cordoned node: nothing may "repair" the cordoned one
+	g5 := g
+	g5.Opts.TaintEffect = "NoExecute"
+	s5 := *s
+	s5.Name = "c09.effect-changed"
+	s5.Groups = []h.GroupSpec{g5}
+	s5.Slots = 6
+	s5.Init = func(hh *h.Hist) {
+		a := InitASGs(hh)[0]
+		n1 := hh.W.AddNode(a, sim.NodeOpt{Age: 20 * Q})
+		hh.W.AddPod(podOn(g5, n1.Name, 300))
+		hh.W.AddNode(a, sim.NodeOpt{Age: 21 * Q})
+		hh.W.AddNode(a, sim.NodeOpt{Age: 22 * Q, TaintAge: dp(0)})                 // old effect (NoSchedule), schedulable
+		hh.W.AddNode(a, sim.NodeOpt{Age: 23 * Q, TaintAge: dp(0), Cordoned: true}) // old effect, cordoned
+		hh.W.AddNode(a, sim.NodeOpt{Age: 24 * Q, TaintAge: dp(3 * Q), Cordoned: true})
+	}
+	s5.Events = func(hh *h.Hist, slot int) []h.Event {
+		var ev []h.Event
+		for _, n := range groupNodes(hh, g5, 5) {
+			ev = append(ev, evCordon(n.Name, !n.Spec.Unschedulable), evPodStart(g5, n.Name, 200), evPodFinish(g5, n.Name))
+		}
+		return append(ev, evBurst(g5, 2, 1000), evClearPending(g5), evRestart())
+	}
+	return []*h.Scenario{s, &s2, &s3, &s4, &s5}
 }
 
 func init() {
